@@ -3,7 +3,6 @@ package c03
 import (
 	"encoding/json"
 	"fmt"
-	"sync"
 	"sync/atomic"
 	"testing"
 
@@ -23,9 +22,9 @@ type unit struct {
 }
 
 type ctx struct {
-	r          *enumx.Run
-	n, nt      int64
-	sampleOnce *sync.Once
+	r     *enumx.Run
+	e     *env
+	n, nt int64
 }
 
 func (u *ctx) emit(c Case, fs []finding) {
@@ -61,7 +60,8 @@ func run(r *enumx.Run, replay *enumx.ReplayCase) {
 			r.Violation("machinery/bad-replay", err.Error(), nil)
 			return
 		}
-		for _, f := range evalCase(c) {
+		e := newEnv()
+		for _, f := range e.evalCase(c) {
 			if f.key == replay.Key {
 				r.Violation(f.key, f.msg, c)
 			}
@@ -76,7 +76,7 @@ func run(r *enumx.Run, replay *enumx.ReplayCase) {
 	r.Assume("not demanded (outside the statement): wrapped keys / ciphertexts of impossible sizes (C07), RSAES-PKCS1-v1_5 ciphertext mutation (unauthenticated), the size of a digest, which sentinel is returned where consts.go defines none for the case (key-wrap plaintext length, RSA message too long, packages aeskw/aescbcaead)")
 	r.Set("algorithm_names", len(algs))
 	r.Set("algorithm_names_read_from_consts_go", fromSource)
-	r.Set("keys", len(allKeys))
+	r.Set("keys", len(baseKeys))
 	for _, a := range algs {
 		if a.listed() && !a.Known {
 			r.Incomplete("the package lists " + a.Name + " as supported but the reference does not implement it")
@@ -109,13 +109,13 @@ func run(r *enumx.Run, replay *enumx.ReplayCase) {
 		for _, pl := range ptLens {
 			pl := pl
 			add("sym-enc", func(u *ctx) {
-				for _, k := range allKeys {
+				for ki, k := range u.e.keys {
 					for _, nl := range nonces {
 						for ai := range aads {
-							c := Case{Sec: "sym-enc", Alg: a.Name, Key: k.String(), PT: pl, Nonce: nl, AAD: ai}
+							c := Case{Sec: "sym-enc", Alg: a.Name, Key: u.e.ids[ki], PT: pl, Nonce: nl, AAD: ai}
 							f, _ := symFaults("EncryptSymmetric", a, k, nl, pl, 0, false)
 							u.count(one(f))
-							u.emit(c, evalSymEnc(c))
+							u.emit(c, u.e.evalSymEnc(c))
 						}
 					}
 				}
@@ -129,16 +129,16 @@ func run(r *enumx.Run, replay *enumx.ReplayCase) {
 					for ai := range aads {
 						for _, tl := range tags {
 							c := Case{Sec: "sym-dec", Alg: a.Name, PT: pl, Tag: tl, AAD: ai, Raw: raw}
-							ct, tag, want, rightKey, ok := decInput(a, c)
+							ct, tag, want, rightKey, ok := u.e.decInput(a, c)
 							if !ok {
 								continue
 							}
-							for _, k := range allKeys {
+							for ki, k := range u.e.keys {
 								for _, nl := range nonces {
-									c.Key, c.Nonce = k.String(), nl
+									c.Key, c.Nonce = u.e.ids[ki], nl
 									f, _ := symFaults("DecryptSymmetric", a, k, nl, len(ct), tl, true)
 									u.count(one(f))
-									u.emit(c, evalSymDecWith(c, a, k, ct, tag, want, rightKey))
+									u.emit(c, u.e.evalSymDecWith(c, a, k, ct, tag, want, rightKey))
 								}
 							}
 						}
@@ -153,7 +153,7 @@ func run(r *enumx.Run, replay *enumx.ReplayCase) {
 					ai := []int{0, 2}[ai]
 					pl := pl
 					add("sym-mut", func(u *ctx) {
-						k := octBySize[a.Ref.KeyLen]
+						k := u.e.octBySize[a.Ref.KeyLen]
 						ct, tag, err := cryptoref.Encrypt(a.Ref, k.Octets, nonce(a.Ref.NonceLen), pt(pl), aads[ai])
 						if err != nil {
 							u.r.Violation("machinery/reference-encrypt-failed", err.Error(), nil)
@@ -172,7 +172,7 @@ func run(r *enumx.Run, replay *enumx.ReplayCase) {
 								m2 := m
 								c := Case{Sec: "sym-mut", Alg: a.Name, PT: pl, AAD: ai, Mut: &m2}
 								u.count(true)
-								u.emit(c, evalSymMut(c))
+								u.emit(c, u.e.evalSymMut(c))
 							})
 						}
 					})
@@ -188,14 +188,14 @@ func run(r *enumx.Run, replay *enumx.ReplayCase) {
 			for _, pl := range ptLens {
 				c := Case{Sec: "kw", KSize: ks, PT: pl}
 				u.count(true)
-				u.emit(c, evalKW(c))
+				u.emit(c, u.e.evalKW(c))
 			}
 			for _, pl := range []int{16, 24, 40} {
 				eachMutation("wrapped-key", pl+8, allXor, func(m Mut) {
 					m2 := m
 					c := Case{Sec: "kw", KSize: ks, PT: pl, Mut: &m2}
 					u.count(true)
-					u.emit(c, evalKW(c))
+					u.emit(c, u.e.evalKW(c))
 				})
 			}
 		})
@@ -212,7 +212,7 @@ func run(r *enumx.Run, replay *enumx.ReplayCase) {
 				add("aead", func(u *ctx) {
 					c := Case{Sec: "aead", Ctor: ci.name, KSize: ks}
 					u.count(true)
-					u.emit(c, evalAEAD(c))
+					u.emit(c, u.e.evalAEAD(c))
 				})
 				continue
 			}
@@ -224,7 +224,7 @@ func run(r *enumx.Run, replay *enumx.ReplayCase) {
 							for dv := 0; dv < nDst; dv++ {
 								c := Case{Sec: "aead", Ctor: ci.name, KSize: ks, PT: pl, Nonce: nl, AAD: ai, Dst: dv}
 								u.count(true)
-								u.emit(c, evalAEAD(c))
+								u.emit(c, u.e.evalAEAD(c))
 							}
 						}
 					}
@@ -244,7 +244,7 @@ func run(r *enumx.Run, replay *enumx.ReplayCase) {
 								m2 := m
 								c := Case{Sec: "aead", Ctor: ci.name, KSize: ks, PT: pl, Nonce: 16, AAD: ai, Mut: &m2}
 								u.count(true)
-								u.emit(c, evalAEAD(c))
+								u.emit(c, u.e.evalAEAD(c))
 							})
 						}
 					})
@@ -257,24 +257,24 @@ func run(r *enumx.Run, replay *enumx.ReplayCase) {
 	for _, a := range algs {
 		a := a
 		add("asym-enc", func(u *ctx) {
-			for _, k := range allKeys {
+			for ki, k := range u.e.keys {
 				for _, pl := range asymLens(a) {
 					for ai := range aads {
-						c := Case{Sec: "asym-enc", Alg: a.Name, Key: k.String(), PT: pl, AAD: ai}
+						c := Case{Sec: "asym-enc", Alg: a.Name, Key: u.e.ids[ki], PT: pl, AAD: ai}
 						f, _ := encFaults("EncryptPublicKey", a, k, pl)
 						u.count(one(f))
-						u.emit(c, evalAsymEnc(c))
+						u.emit(c, u.e.evalAsymEnc(c))
 					}
 				}
 			}
 		})
 		add("asym-dec", func(u *ctx) {
-			for _, k := range allKeys {
+			for ki := range u.e.keys {
 				for _, pl := range asymLens(a) {
 					for ai := range aads {
-						c := Case{Sec: "asym-dec", Alg: a.Name, Key: k.String(), PT: pl, AAD: ai}
+						c := Case{Sec: "asym-dec", Alg: a.Name, Key: u.e.ids[ki], PT: pl, AAD: ai}
 						u.count(true)
-						u.emit(c, evalAsymDec(c))
+						u.emit(c, u.e.evalAsymDec(c))
 					}
 				}
 			}
@@ -290,7 +290,7 @@ func run(r *enumx.Run, replay *enumx.ReplayCase) {
 							for _, v := range asymXor {
 								c := Case{Sec: "asym-dec", Alg: a.Name, Key: "RSA-2048/private#A", PT: pl, AAD: 2, Mut: &Mut{Comp: "ciphertext", Op: "xor", Pos: pos, Val: v}}
 								u.count(true)
-								u.emit(c, evalAsymDec(c))
+								u.emit(c, u.e.evalAsymDec(c))
 							}
 						}
 					})
@@ -301,13 +301,13 @@ func run(r *enumx.Run, replay *enumx.ReplayCase) {
 							m2 := m
 							c := Case{Sec: "asym-dec", Alg: a.Name, Key: "RSA-2048/private#A", PT: pl, AAD: ai, Mut: &m2}
 							u.count(true)
-							u.emit(c, evalAsymDec(c))
+							u.emit(c, u.e.evalAsymDec(c))
 						})
 						for _, m := range []Mut{{Comp: "ciphertext", Op: "drop-last"}, {Comp: "ciphertext", Op: "append"}} {
 							m2 := m
 							c := Case{Sec: "asym-dec", Alg: a.Name, Key: "RSA-2048/private#A", PT: pl, AAD: ai, Mut: &m2}
 							u.count(true)
-							u.emit(c, evalAsymDec(c))
+							u.emit(c, u.e.evalAsymDec(c))
 						}
 					}
 				})
@@ -316,22 +316,21 @@ func run(r *enumx.Run, replay *enumx.ReplayCase) {
 	}
 
 	// ---- signatures
-	sigKeys := append([]*cryptokeys.Key{}, allKeys...)
-	for _, kd := range cryptokeys.AsymKinds {
-		sigKeys = append(sigKeys, cryptokeys.Asym(kd, "B"))
-	}
+	e0 := newEnv()
+	nSigKeys := len(e0.sigKeys)
 	for _, a := range algs {
 		a := a
-		for _, k := range sigKeys {
-			k := k
+		for ski := 0; ski < nSigKeys; ski++ {
+			ski := ski
 			add("sig", func(u *ctx) {
+				k := u.e.sigKeys[ski]
 				for _, dl := range sigLens {
 					c := Case{Sec: "sig-sign", Alg: a.Name, Key: k.String(), PT: dl}
 					u.count(true)
-					u.emit(c, evalSign(c))
+					u.emit(c, u.e.evalSign(c))
 					c = Case{Sec: "sig-verify", Alg: a.Name, Key: k.String(), PT: dl}
 					u.count(true)
-					u.emit(c, evalVerify(c))
+					u.emit(c, u.e.evalVerify(c))
 				}
 			})
 		}
@@ -347,12 +346,12 @@ func run(r *enumx.Run, replay *enumx.ReplayCase) {
 			} else {
 				dl = a.Ref.Hash.Size()
 			}
-			sig, signer, err := refSignature(a, digest(di, dl))
+			sig, signer, err := e0.refSignature(a, digest(di, dl))
 			if err != nil {
 				r.Violation("machinery/reference-sign-failed", a.Name+": "+err.Error(), nil)
 				continue
 			}
-			pub := cryptokeys.Partner(signer)
+			pub := e0.partner(signer)
 			// (the DER length of an ECDSA signature is fixed here because the
 			// reference's randomness is a constant stream)
 			for chunk := 0; chunk < len(sig); chunk += 8 {
@@ -362,7 +361,7 @@ func run(r *enumx.Run, replay *enumx.ReplayCase) {
 						for _, v := range asymXor {
 							c := Case{Sec: "sig-verify", Alg: a.Name, Key: pub.String(), PT: dl, AAD: di, Mut: &Mut{Comp: "signature", Op: "xor", Pos: pos, Val: v}}
 							u.count(true)
-							u.emit(c, evalVerify(c))
+							u.emit(c, u.e.evalVerify(c))
 						}
 					}
 				})
@@ -372,13 +371,13 @@ func run(r *enumx.Run, replay *enumx.ReplayCase) {
 					m2 := m
 					c := Case{Sec: "sig-verify", Alg: a.Name, Key: pub.String(), PT: dl, AAD: di, Mut: &m2}
 					u.count(true)
-					u.emit(c, evalVerify(c))
+					u.emit(c, u.e.evalVerify(c))
 				}
 				eachMutation("digest", dl, asymXor, func(m Mut) {
 					m2 := m
 					c := Case{Sec: "sig-verify", Alg: a.Name, Key: pub.String(), PT: dl, AAD: di, Mut: &m2}
 					u.count(true)
-					u.emit(c, evalVerify(c))
+					u.emit(c, u.e.evalVerify(c))
 				})
 			})
 		}
@@ -409,8 +408,9 @@ func run(r *enumx.Run, replay *enumx.ReplayCase) {
 		}
 	}
 	r.Parallel(len(sorted), func(i int) {
-		u := &ctx{r: r}
+		u := &ctx{r: r, e: getEnv()}
 		sorted[i].fn(u)
+		putEnv(u.e)
 		r.Count(u.n, u.nt)
 		evals[sorted[i].sec].Add(u.n)
 		done[sorted[i].sec].Add(1)
@@ -439,26 +439,26 @@ func run(r *enumx.Run, replay *enumx.ReplayCase) {
 	r.Sample(Case{Sec: "sig-verify", Alg: "ES384", Key: "P-384/public#A", PT: 48, AAD: 1, Mut: &Mut{Comp: "signature", Op: "xor", Pos: 9, Val: 0x01}})
 }
 
-func evalCase(c Case) []finding {
+func (e *env) evalCase(c Case) []finding {
 	switch c.Sec {
 	case "sym-enc":
-		return evalSymEnc(c)
+		return e.evalSymEnc(c)
 	case "sym-dec":
-		return evalSymDec(c)
+		return e.evalSymDec(c)
 	case "sym-mut":
-		return evalSymMut(c)
+		return e.evalSymMut(c)
 	case "kw":
-		return evalKW(c)
+		return e.evalKW(c)
 	case "aead":
-		return evalAEAD(c)
+		return e.evalAEAD(c)
 	case "asym-enc":
-		return evalAsymEnc(c)
+		return e.evalAsymEnc(c)
 	case "asym-dec":
-		return evalAsymDec(c)
+		return e.evalAsymDec(c)
 	case "sig-sign":
-		return evalSign(c)
+		return e.evalSign(c)
 	case "sig-verify":
-		return evalVerify(c)
+		return e.evalVerify(c)
 	}
 	return []finding{{"machinery/unknown-section", c.Sec}}
 }
